@@ -1,5 +1,401 @@
 package main
 
-import "fmt"
+// X09: vectors enumerated by TLC from spec/SmallVec.tla executed on the real helper functions.
 
-func cmdVec(args []string) (map[string]interface{}, error) { return nil, fmt.Errorf("not yet") }
+import (
+	"encoding/json"
+	"flag"
+	"fmt"
+	"net"
+	"net/netip"
+	"time"
+
+	"github.com/irai/packet"
+	"github.com/irai/packet/fastlog"
+)
+
+type write struct {
+	Off int   `json:"off"`
+	B   []int `json:"b"`
+}
+
+type hdrGet struct {
+	Op     int   `json:"op"`
+	HType  int   `json:"htype"`
+	HLen   int   `json:"hlen"`
+	Hops   int   `json:"hops"`
+	XID    []int `json:"xid"`
+	Secs   []int `json:"secs"`
+	Flags  []int `json:"flags"`
+	Bcast  bool  `json:"bcast"`
+	CIAddr []int `json:"ciaddr"`
+	YIAddr []int `json:"yiaddr"`
+	SIAddr []int `json:"siaddr"`
+	GIAddr []int `json:"giaddr"`
+	CHAddr []int `json:"chaddr"`
+	SName  []int `json:"sname"`
+	File   []int `json:"file"`
+	Cookie []int `json:"cookie"`
+}
+
+type logOp struct {
+	O string `json:"o"`
+	V int    `json:"v"`
+	W string `json:"w"`
+}
+
+type logObs struct {
+	Level int  `json:"level"`
+	Info  bool `json:"info"`
+	Debug bool `json:"debug"`
+}
+
+type svec struct {
+	K      string          `json:"k"`
+	F      string          `json:"f"`
+	Fill   int             `json:"fill"`
+	Arg    []int           `json:"arg"`
+	ArgK   string          `json:"argk"`
+	Writes []write         `json:"writes"`
+	Get    hdrGet          `json:"get"`
+	Obs    string          `json:"obs"`
+	Neg    bool            `json:"neg"`
+	Hi     int             `json:"hi"`
+	Lo     int             `json:"lo"`
+	Ns     int             `json:"ns"`
+	MAC    []int           `json:"mac"`
+	IP     []int           `json:"ip"`
+	Subnet []int           `json:"subnet"`
+	Init   int             `json:"init"`
+	Ops    []logOp         `json:"ops"`
+	W      string          `json:"w"`
+	Doc    int             `json:"documented"`
+	Exp    json.RawMessage `json:"exp"`
+}
+
+func bytesOf(v []int) []byte {
+	b := make([]byte, len(v))
+	for i, x := range v {
+		b[i] = byte(x)
+	}
+	return b
+}
+
+func eqBytes(b []byte, v []int) bool {
+	if len(b) != len(v) {
+		return false
+	}
+	for i := range b {
+		if int(b[i]) != v[i] {
+			return false
+		}
+	}
+	return true
+}
+
+func addrOf(kind string, v []int) netip.Addr {
+	switch kind {
+	case "ip4":
+		return netip.AddrFrom4([4]byte{byte(v[0]), byte(v[1]), byte(v[2]), byte(v[3])})
+	case "ip16":
+		var a [16]byte
+		copy(a[:], bytesOf(v))
+		return netip.AddrFrom16(a)
+	}
+	return netip.Addr{}
+}
+
+func runHdr(i int, v svec) (string, string) {
+	const n = 240
+	buf := make([]byte, n+16) // 16 guard bytes behind the header
+	for j := range buf {
+		buf[j] = byte(v.Fill)
+	}
+	p := packet.DHCP4(buf[:n:n])
+	arg := bytesOf(v.Arg)
+	if i%2 == 0 && len(arg) == 0 && v.ArgK == "bytes" {
+		arg = nil
+	}
+	keep := append([]byte{}, arg...)
+	switch v.F {
+	case "op":
+		p.SetOpCode(packet.DHCP4OpCode(arg[0]))
+	case "htype":
+		p.SetHType(arg[0])
+	case "hlen":
+		p.SetHLen(arg[0])
+	case "hops":
+		p.SetHops(arg[0])
+	case "xid":
+		p.SetXId(arg)
+	case "secs":
+		p.SetSecs(uint16(arg[0])<<8 | uint16(arg[1]))
+	case "flags":
+		p.SetFlags(uint16(arg[0])<<8 | uint16(arg[1]))
+	case "bcast":
+		p.SetFlags(uint16(arg[1])<<8 | uint16(arg[2]))
+		p.SetBroadcast(arg[0] == 1)
+	case "ciaddr":
+		p.SetCIAddr(addrOf(v.ArgK, v.Arg))
+	case "yiaddr":
+		p.SetYIAddr(addrOf(v.ArgK, v.Arg))
+	case "siaddr":
+		p.SetSIAddr(addrOf(v.ArgK, v.Arg))
+	case "giaddr":
+		p.SetGIAddr(addrOf(v.ArgK, v.Arg))
+	case "chaddr":
+		p.SetCHAddr(net.HardwareAddr(arg))
+	case "sname":
+		p.SetSName(arg)
+	case "file":
+		p.SetFile(arg)
+	case "cookie":
+		p.SetCookie(arg)
+	default:
+		return "driver", "unknown header field " + v.F
+	}
+	want := make([]byte, n+16)
+	for j := range want {
+		want[j] = byte(v.Fill)
+	}
+	for _, w := range v.Writes {
+		copy(want[w.Off:], bytesOf(w.B))
+	}
+	for j := range want {
+		if buf[j] != want[j] {
+			return "layout", fmt.Sprintf("Set%s(%v) on a header filled with %d: byte %d is %d, the reference says %d", v.F, v.Arg, v.Fill, j, buf[j], want[j])
+		}
+	}
+	if string(keep) != string(arg) {
+		return "modified", "the setter modified its argument"
+	}
+	g := v.Get
+	c4 := func(a netip.Addr) []byte { x := a.As4(); return x[:] }
+	checks := []struct {
+		name string
+		ok   bool
+	}{
+		{"OpCode", int(p.OpCode()) == g.Op}, {"HType", int(p.HType()) == g.HType}, {"HLen", int(p.HLen()) == g.HLen}, {"Hops", int(p.Hops()) == g.Hops},
+		{"XId", eqBytes(p.XId(), g.XID)}, {"Secs", int(p.Secs()) == g.Secs[0]<<8|g.Secs[1]}, {"Flags", int(p.Flags()) == g.Flags[0]<<8|g.Flags[1]},
+		{"Broadcast", p.Broadcast() == g.Bcast}, {"CIAddr", eqBytes(c4(p.CIAddr()), g.CIAddr)}, {"YIAddr", eqBytes(c4(p.YIAddr()), g.YIAddr)},
+		{"SIAddr", eqBytes(c4(p.SIAddr()), g.SIAddr)}, {"GIAddr", eqBytes(c4(p.GIAddr()), g.GIAddr)}, {"CHAddr", eqBytes(p.CHAddr(), g.CHAddr)},
+		{"SName", eqBytes(p.SName(), g.SName)}, {"File", eqBytes(p.File(), g.File)}, {"Cookie", eqBytes(p.Cookie(), g.Cookie)},
+		{"Options", p.Options() == nil},
+	}
+	for _, c := range checks {
+		if !c.ok {
+			return "getter", fmt.Sprintf("after Set%s(%v): %s() does not read the field back", v.F, v.Arg, c.name)
+		}
+	}
+	return "", ""
+}
+
+func u32(hi, lo int) uint64 { return uint64(hi)*65536 + uint64(lo) }
+
+func runSmall(i int, v svec) (aspect, what string) {
+	defer func() {
+		if r := recover(); r != nil {
+			aspect, what = "panic", fmt.Sprintf("%s: panic: %v", v.K, r)
+		}
+	}()
+	switch v.K {
+	case "hdr":
+		return runHdr(i, v)
+	case "lease":
+		var exp []int
+		json.Unmarshal(v.Exp, &exp)
+		d := time.Duration(int64(u32(v.Hi, v.Lo))*int64(time.Second) + int64(v.Ns))
+		if v.Neg {
+			d = -d
+		}
+		got := packet.OptionsLeaseTime(d)
+		if !eqBytes(got, exp) {
+			return "value", fmt.Sprintf("OptionsLeaseTime(%v) = %v, reference %v", d, got, exp)
+		}
+	case "mtu":
+		var exp struct {
+			Code int   `json:"code"`
+			Be   []int `json:"be"`
+		}
+		json.Unmarshal(v.Exp, &exp)
+		val := uint32(u32(v.Hi, v.Lo))
+		m := packet.NewMTU(val)
+		if m == nil || uint32(*m) != val || int(m.Code()) != exp.Code {
+			return "value", fmt.Sprintf("NewMTU(%d): value %v code %d", val, m, m.Code())
+		}
+		be := []byte{byte(uint32(*m) >> 24), byte(uint32(*m) >> 16), byte(uint32(*m) >> 8), byte(uint32(*m))}
+		if !eqBytes(be, exp.Be) {
+			return "value", fmt.Sprintf("NewMTU(%d) holds %v, reference %v", val, be, exp.Be)
+		}
+	case "lla":
+		var exp []int
+		json.Unmarshal(v.Exp, &exp)
+		mac := net.HardwareAddr(bytesOf(v.MAC))
+		if len(mac) == 0 && i%2 == 0 {
+			mac = nil
+		}
+		keep := append([]byte{}, mac...)
+		got := packet.IPv6NewLLA(mac)
+		if !eqBytes(got, exp) {
+			return "value", fmt.Sprintf("IPv6NewLLA(%v) = %v, reference %v", []byte(mac), []byte(got), exp)
+		}
+		if string(keep) != string(mac) {
+			return "modified", "IPv6NewLLA modified its argument"
+		}
+	case "ula":
+		var exp struct {
+			OK     bool  `json:"ok"`
+			First  int   `json:"first"`
+			Subnet []int `json:"subnet"`
+			Ones   int   `json:"ones"`
+		}
+		json.Unmarshal(v.Exp, &exp)
+		var mac net.HardwareAddr // the empty address of the reference is the nil MAC ("no seed")
+		if len(v.MAC) > 0 {
+			mac = net.HardwareAddr(bytesOf(v.MAC))
+		}
+		sn := uint16(v.Subnet[0])<<8 | uint16(v.Subnet[1])
+		n, err := packet.IPv6NewULA(mac, sn)
+		if (err == nil) != exp.OK {
+			return "error", fmt.Sprintf("IPv6NewULA(%v, %d): error %v, reference ok=%v", []byte(mac), sn, err, exp.OK)
+		}
+		if err == nil {
+			ones, bits := n.Mask.Size()
+			ip := n.IP.To16()
+			if ip == nil || int(ip[0]) != exp.First || !eqBytes(ip[6:8], exp.Subnet) || ones != exp.Ones || bits != 128 ||
+				string(ip[8:16]) != string(make([]byte, 8)) {
+				return "value", fmt.Sprintf("IPv6NewULA(%v, %d) = %v: not fd00::/8 + global id + subnet %v as a /64", []byte(mac), sn, n, exp.Subnet)
+			}
+		}
+	case "solnode":
+		var exp struct {
+			IP  []int `json:"ip"`
+			MAC []int `json:"mac"`
+		}
+		json.Unmarshal(v.Exp, &exp)
+		var a netip.Addr
+		if len(v.IP) == 4 {
+			a = addrOf("ip4", v.IP)
+		} else {
+			a = addrOf("ip16", v.IP)
+		}
+		got := packet.IPv6SolicitedNode(a)
+		var gip []byte
+		if got.IP.IsValid() {
+			x := got.IP.As16()
+			gip = x[:]
+		}
+		if !eqBytes(gip, exp.IP) || !eqBytes(got.MAC, exp.MAC) {
+			return "value", fmt.Sprintf("IPv6SolicitedNode(%v) = %v %v, reference %v %v", a, got.IP, []byte(got.MAC), exp.IP, exp.MAC)
+		}
+	case "ucast":
+		var exp struct {
+			Panic   bool `json:"panic"`
+			Unicast bool `json:"unicast"`
+		}
+		json.Unmarshal(v.Exp, &exp)
+		mac := net.HardwareAddr(bytesOf(v.MAC))
+		if len(mac) == 0 && i%2 == 0 {
+			mac = nil
+		}
+		var got bool
+		panicked := func() (p bool) {
+			defer func() {
+				if recover() != nil {
+					p = true
+				}
+			}()
+			got = packet.IsUnicastMAC(mac)
+			return false
+		}()
+		if panicked != exp.Panic {
+			if panicked {
+				return "panic", fmt.Sprintf("IsUnicastMAC(%v) panics", []byte(mac))
+			}
+			return "nopanic", fmt.Sprintf("IsUnicastMAC(%v) = %v: the recorded panic on the empty address is gone", []byte(mac), got)
+		}
+		if !panicked && got != exp.Unicast {
+			return "value", fmt.Sprintf("IsUnicastMAC(%v) = %v, reference %v", []byte(mac), got, exp.Unicast)
+		}
+	case "log":
+		var exp []logObs
+		json.Unmarshal(v.Exp, &exp)
+		l := fastlog.New("x09")
+		l.SetLevel(fastlog.LogLevel(v.Init))
+		for j, op := range v.Ops {
+			switch op.O {
+			case "set":
+				l.SetLevel(fastlog.LogLevel(op.V))
+			case "setstr":
+				l.SetLevelString(op.W)
+			case "disable":
+				l.Disable()
+			case "einfo":
+				l.EnableInfo()
+			case "edebug":
+				l.EnableDebug()
+			default:
+				return "driver", "unknown log operation " + op.O
+			}
+			if int(l.Level()) != exp[j].Level || l.IsInfo() != exp[j].Info || l.IsDebug() != exp[j].Debug {
+				return "level", fmt.Sprintf("logger at level %d after %v: Level %d IsInfo %v IsDebug %v, reference %+v", v.Init, v.Ops[:j+1],
+					l.Level(), l.IsInfo(), l.IsDebug(), exp[j])
+			}
+		}
+	case "str2level":
+		var exp int
+		json.Unmarshal(v.Exp, &exp)
+		got := int(fastlog.Str2LogLevel(v.W))
+		if got != exp {
+			if got == v.Doc {
+				return "documented", fmt.Sprintf("Str2LogLevel(%q) = %d as documented (recorded: %d)", v.W, got, exp)
+			}
+			return "value", fmt.Sprintf("Str2LogLevel(%q) = %d, reference %d", v.W, got, exp)
+		}
+	default:
+		return "driver", "unknown family " + v.K
+	}
+	return "", ""
+}
+
+func cmdVec(args []string) (map[string]interface{}, error) {
+	fs := flag.NewFlagSet("vec", flag.ExitOnError)
+	in := fs.String("in", "", "vectors (ndjson)")
+	out := fs.String("out", "", "results (ndjson): failing vectors only")
+	fs.Parse(args)
+	lines, err := readLines(*in)
+	if err != nil {
+		return nil, err
+	}
+	w, err := newNDWriter(*out)
+	if err != nil {
+		return nil, err
+	}
+	bad := 0
+	fam, sites := map[string]int{}, map[string]int{}
+	siteEx := map[string]int{}
+	for i, ln := range lines {
+		var v svec
+		if err := json.Unmarshal(ln, &v); err != nil {
+			return nil, fmt.Errorf("vector %d: %v", i, err)
+		}
+		fam[v.K]++
+		asp, what := runSmall(i, v)
+		if asp == "driver" {
+			return nil, fmt.Errorf("vector %d: %s", i, what)
+		}
+		if asp != "" {
+			bad++
+			w.write(map[string]interface{}{"i": i, "aspect": asp, "what": what, "obs": v.Obs})
+		} else if v.Obs != "" {
+			sites[v.Obs]++
+			if _, ok := siteEx[v.Obs]; !ok {
+				siteEx[v.Obs] = i
+			}
+		}
+	}
+	if err := w.close(); err != nil {
+		return nil, err
+	}
+	return map[string]interface{}{"vectors": len(lines), "differ": bad, "families": fam, "sites": sites, "site_examples": siteEx}, nil
+}
